@@ -493,4 +493,41 @@ example :
       (∀ prog ∈ progs, ∀ u ∈ prog, (pendingAdds (compileUnit siqsMt u)).length ≤ 3) := by
   refine ⟨by decide, by decide, by decide, by simp [allAbort], by decide⟩
 
+
+/-- **`sched_inv_shape` on the unit-level model** (both reactions to a true poll, `leaves` arbitrary): whatever the shape, the
+schedule, the stale reads and the abort answers, the store is the sequential replay of the lock-order history, which consists of
+relations of the workers' own polynomials only, and every invariant `add` preserves is kept -/
+theorem sched_inv_units (leaves : Bool) (add : σ → ρ → σ) (enough : σ → Bool) (Inv : σ → Prop) (Good : ρ → Prop)
+    (hadd : ∀ s r, Inv s → Good r → Inv (add s r)) (sh : Shape)
+    (s0 : σ) (progs : List (List (List (List ρ)))) (h0 : Inv s0)
+    (hgood : ∀ prog ∈ progs, ∀ u ∈ prog, ∀ p ∈ u, ∀ r ∈ p, Good r) (sched : List (Nat × Bool × Bool)) :
+    let c := runU leaves add enough (initU sh s0 progs) sched
+    c.store = c.log.foldl add s0 ∧ Inv c.store ∧ (∀ r ∈ c.log, Good r) ∧
+      (∀ r ∈ c.log, ∃ prog ∈ progs, ∃ u ∈ prog, ∃ p ∈ u, r ∈ p) := by
+  intro c
+  have h := runU_spec leaves add enough s0 (fun r => Good r ∧ ∃ prog ∈ progs, ∃ u ∈ prog, ∃ p ∈ u, r ∈ p) sched
+    (initU sh s0 progs) (by simp [initU]) (by simp [initU])
+    (by
+      intro x hx
+      simp only [initU, List.mem_map] at hx
+      obtain ⟨prog, hprog, rfl⟩ := hx
+      refine ⟨by simp [pendingAdds], ?_⟩
+      intro u hu r hr
+      obtain ⟨v, hv, rfl⟩ := List.mem_map.mp hu
+      obtain ⟨u', hu', p, hp, hrp⟩ := mem_pendingAdds_compileShape sh [v] r (by simpa [compileShape] using hr)
+      simp only [List.mem_singleton] at hu'
+      subst hu'
+      exact ⟨hgood prog hprog _ hv p hp r hrp, prog, hprog, _, hv, p, hp, hrp⟩)
+  obtain ⟨a1, a2⟩ := h
+  refine ⟨a1, ?_, fun r hr => (a2 r hr).1, fun r hr => (a2 r hr).2⟩
+  show Inv c.store
+  rw [a1]
+  exact foldl_inv add Inv Good hadd _ s0 h0 (fun r hr => (a2 r hr).1)
+
+example :
+    let c := runU false (· + ·) (fun s => s ≥ 6) (initU cgMt 0 [[[[2, 4], [6]]], [[[1], [3]]]])
+      [(0, false, false), (1, false, false), (0, false, false), (0, false, false), (1, false, false), (0, false, false), (0, false, false),
+       (1, false, false), (1, false, false), (1, false, false), (0, false, false), (0, false, false), (1, false, false), (0, false, false), (1, false, false)]
+    c.log = [2, 1, 4] ∧ c.store = 7 ∧ c.done = true ∧ finishedU c = true := by decide
+
 end Ymq.C04Shape
